@@ -11,6 +11,12 @@ RNE = z3.RNE()
 
 
 def fpval_to_float(s):
+    s = z3.simplify(s)
+    if z3.is_fp_value(s):
+        if s.isNaN():
+            return float("nan")
+        if s.isInf():
+            return float("-inf") if s.isNegative() else float("inf")
     bv = z3.simplify(z3.fpToIEEEBV(s))
     if not z3.is_bv_value(bv):
         raise core.VkError("FP term did not reduce to a value: %s" % str(s)[:120])
